@@ -22,7 +22,7 @@ var (
 	outDir  = flag.String("out", "/verif/lean/Seccomp/Gen", "output directory for generated Lean files")
 	targets = flag.String("targets", "quick", "build targets for Consts: quick | all | goos/goarch,goos/goarch,…")
 	jsonOut = flag.String("json", "", "also write the facts as JSON to this file")
-	only    = flag.String("only", "", "comma separated subset: tables,names,consts,skeletons,purity")
+	only    = flag.String("only", "", "comma separated subset: tables,oracle,names,consts,skeletons,purity")
 )
 
 func main() {
@@ -42,6 +42,20 @@ func main() {
 	}
 	if sel("tables") {
 		if err := genTables(host, facts); err != nil {
+			fatal(err)
+		}
+	}
+	if sel("tables") || sel("oracle") {
+		// C12: Nat-coded tables and the independent oracle sources (oracle.go)
+		if _, ok := facts["tables"]; !ok {
+			if err := genTables(host, facts); err != nil {
+				fatal(err)
+			}
+		}
+		if err := genTableCodes(host, facts); err != nil {
+			fatal(err)
+		}
+		if err := genOracle(host, facts); err != nil {
 			fatal(err)
 		}
 	}
